@@ -7,6 +7,7 @@ import (
 	"fmt"
 	"reflect"
 	"runtime"
+	"sync"
 
 	"github.com/hashicorp/go-argmapper/internal/graph"
 )
@@ -81,6 +82,11 @@ type Func struct {
 	name       string
 	once       bool
 	onceResult *Result
+
+	// onceMu guards onceResult and serializes the execution of a FuncOnce
+	// function. It is a pointer so that copies of a Func (see Redefine)
+	// never copy a lock.
+	onceMu *sync.Mutex
 }
 
 // MustFunc can be called around NewFunc in order to force success and
@@ -139,6 +145,7 @@ func NewFunc(f interface{}, opts ...Arg) (*Func, error) {
 		callOpts: opts,
 		name:     args.funcName,
 		once:     args.funcOnce,
+		onceMu:   new(sync.Mutex),
 	}, nil
 }
 
